@@ -743,7 +743,7 @@ def run(ctx):
                                       for x in o]
         if o is not None and got != want:
             ctx.disagree(inp, got, want, 'separateModes')
-    hms = [''.join(t) for n in range(0, 7) for t in itertools.product('a!@ ', repeat=n)]
+    hms = [''.join(t) for n in range(0, 8) for t in itertools.product('a!@ ', repeat=n)]
     ho = ctx.model([[3, h] for h in hms])
     for h, o in zip(hms, ho):
         inp = {'op': 'hostmask', 's': h}
